@@ -36,6 +36,11 @@ SameRows(kind, obs, rows) ==
 \* the strand is specified for RevComp (negated) and Reverse (none) only: C05
 StrandsOK(e, m) ==
   e.op \in {"revcomp", "reverse"} => \A i \in 1..Len(m.rows) : e.obs.rows[i].strand = m.rows[i].strand
+\* a row of a container is a sequence too: RevComp through the row view negates the strand the row carries itself
+\* (sb before, sa after), Reverse clears it
+RowStrandOK(e) ==
+  /\ (e.op = "rowrevcomp" /\ "sb" \in DOMAIN e) => e.sa = -e.sb
+  /\ (e.op = "rowreverse" /\ "sb" \in DOMAIN e) => e.sa = 0
 \* other edits: whatever strand the implementation reports is carried on
 WithObservedStrands(e, m) ==
   IF e.op \in {"revcomp", "reverse"} THEN m
@@ -71,6 +76,7 @@ ObsMatches(e, m) ==
   /\ SameColsL(m.kind, e.obs.colsl, m)
   /\ ConsensusOK(e.obs.cons, m)
   /\ ("op" \in DOMAIN e => StrandsOK(e, m))
+  /\ ("op" \in DOMAIN e => RowStrandOK(e))
 
 Why(e, m) ==
   IF e.obs.panic # "" THEN "panic: " \o e.obs.panic
@@ -80,6 +86,7 @@ Why(e, m) ==
   ELSE IF ~SameCols(m.kind, e.obs.cols, m) THEN "column view differs from the row view"
   ELSE IF ~SameColsL(m.kind, e.obs.colsl, m) THEN "letters-only column view differs from the row view (quality threshold)"
   ELSE IF "op" \in DOMAIN e /\ ~StrandsOK(e, m) THEN "strand"
+  ELSE IF "op" \in DOMAIN e /\ ~RowStrandOK(e) THEN "strand of the row after RevComp / Reverse through the row view"
   ELSE "consensus of a unanimous column"
 
 (***************************************************************************)
